@@ -544,6 +544,8 @@ def run(rep):
     C12.eaten_rule(rep, lf, "C05.d")
     bom_once_rule(rep)
     utf8_advance_rule(rep)
+    from . import C04
+    C04.icu_flush_rule(rep, "C05.h")
     rep.units.update(os.path.relpath(t, core.REPO) for t in lf.tus)
     truncation_rule(rep)
     rep.undecided += ["the decoding/encoding code itself (second-byte ranges for E0/ED/F0/F4 leads, surrogate pairing, "
